@@ -40,6 +40,9 @@ pub struct Config {
     w_close: u32,
     w_drop: u32,
     w_poll: u32,
+    /// bursts of 33..100 sends / receives are part of the alphabet
+    #[serde(default)]
+    burst: bool,
 }
 
 #[derive(Serialize, Deserialize, Clone, Debug, PartialEq)]
@@ -54,6 +57,10 @@ pub enum Action {
     SpuriousPollRecv,
     SenderFromReceiver,
     DropReceiver,
+    /// n plain sends in a row through sender s
+    SendMany(usize, usize),
+    /// up to n polls in a row while messages come out
+    RecvMany(usize),
     // counter
     Acquire(usize),
     DropGuard(usize),
@@ -107,6 +114,7 @@ impl Engine for ChanSim {
             w_close: *rng.pick(&[0, 1, 2]),
             w_drop: *rng.pick(&[1, 2, 4]),
             w_poll: *rng.pick(&[2, 4, 8]),
+            burst: rng.chance(1, 8),
         }
     }
     fn max_actions(_: &str, cfg: &Config) -> usize {
@@ -132,7 +140,7 @@ impl Engine for ChanSim {
     fn describe(prop: &str) -> Describe {
         Describe {
             rule: if prop == "C16" {
-                "seeded operation sequences (3..12 ops quick, up to 40 thorough) over {send, Sink send, clone/drop sender, close, poll receiver (strict-wake: only when never polled or woken; spurious polls are a separate counted action), sender-from-receiver, drop receiver} with <=3 live senders, checked op by op against a FIFO queue model; non-trivial = at least one message received and at least one Pending poll; distinct = distinct hash of the abstract event trace".into()
+                "seeded operation sequences (3..12 ops quick, up to 40 thorough) over {send, Sink send, clone/drop sender, close, poll receiver (strict-wake: only when never polled or woken; spurious polls are a separate counted action), sender-from-receiver, drop receiver; in an eighth of the runs also bursts of 33/40/100 sends and of back-to-back receives} with <=3 live senders, checked op by op against a FIFO queue model; non-trivial = at least one message received and at least one Pending poll; distinct = distinct hash of the abstract event trace".into()
             } else {
                 "seeded operation sequences over {acquire guard, drop any live guard, query available from task i (strict-wake), clone counter} for capacities 0..3, and {register w_i, wake, take} on a LocalWaker, checked op by op against a counter / slot model; non-trivial = at least one refusal and one release (counter) or one register and one wake/take (LocalWaker); distinct = distinct event-trace hash".into()
             },
@@ -143,7 +151,7 @@ impl Engine for ChanSim {
     }
     fn required_probes(prop: &str, _tier: Tier) -> Vec<&'static str> {
         if prop == "C16" {
-            vec!["probe.recv_parked_then_woken_by_send", "probe.end_of_stream_seen", "probe.close_with_parked_receiver", "probe.last_sender_dropped_with_parked_receiver"]
+            vec!["probe.recv_parked_then_woken_by_send", "probe.end_of_stream_seen", "probe.close_with_parked_receiver", "probe.last_sender_dropped_with_parked_receiver", "probe.recv_streak_over_32"]
         } else {
             vec!["probe.release_wakes_refused_task", "probe.refused", "probe.localwaker_wake_fired"]
         }
@@ -185,8 +193,14 @@ fn run_channel(cfg: &Config, ch: &mut Chooser<Action>, ctx: &mut RunCtx) -> Opti
             if cfg.w_close > 0 {
                 en.push((Action::Close(s), cfg.w_close));
             }
+            if cfg.burst && s == 0 {
+                en.push((Action::SendMany(0, *[33usize, 40, 100].get(next_val as usize % 3).unwrap()), cfg.w_send));
+            }
         }
         if rx.is_some() {
+            if cfg.burst && (!parked || task.woken()) && queue.len() > 8 {
+                en.push((Action::RecvMany(queue.len() + 1), cfg.w_poll));
+            }
             if !parked || task.woken() {
                 en.push((Action::PollRecv, cfg.w_poll));
             } else if cfg.spurious > 0 {
@@ -239,6 +253,22 @@ fn run_channel(cfg: &Config, ch: &mut Chooser<Action>, ctx: &mut RunCtx) -> Opti
                     must_wake = Some("send");
                 }
             }
+            Action::SendMany(s, n) => {
+                let expect_ok = rx.is_some() && !closed;
+                for _ in 0..n {
+                    next_val += 1;
+                    let ok = senders[s].send(next_val).is_ok();
+                    if ok != expect_ok {
+                        return Some(Violation::new("send-result", format!("send returned ok={ok} but receiver_alive={} closed={closed}", rx.is_some())).fact("got", if ok { "ok" } else { "err" }));
+                    }
+                    if ok {
+                        queue.push_back(next_val);
+                        must_wake = Some("send");
+                    }
+                }
+                ctx.bump("probe.send_burst");
+                ev!(ctx, "send burst s{s} x{n}");
+            }
             Action::CloneSender(s) => {
                 let c = senders[s].clone();
                 senders.push(c);
@@ -271,12 +301,15 @@ fn run_channel(cfg: &Config, ch: &mut Chooser<Action>, ctx: &mut RunCtx) -> Opti
                 parked = false;
                 ev!(ctx, "drop receiver");
             }
-            Action::PollRecv | Action::SpuriousPollRecv => {
+            Action::PollRecv | Action::SpuriousPollRecv | Action::RecvMany(_) => {
                 if matches!(a, Action::SpuriousPollRecv) {
                     ctx.bump("spurious_polls");
                 } else if parked {
                     ctx.bump("probe.recv_parked_then_woken_by_send");
                 }
+                let reps = if let Action::RecvMany(n) = a { n } else { 1 };
+                let mut streak = 0usize;
+                for _ in 0..reps {
                 let (_flag, w) = task.fresh();
                 let mut cx = Context::from_waker(&w);
                 let r = Pin::new(rx.as_mut().unwrap()).poll_next(&mut cx);
@@ -322,6 +355,14 @@ fn run_channel(cfg: &Config, ch: &mut Chooser<Action>, ctx: &mut RunCtx) -> Opti
                         parked = true;
                         pendings += 1;
                     }
+                }
+                if !matches!(r, Poll::Ready(Some(_))) {
+                    break;
+                }
+                streak += 1;
+                if streak == 33 {
+                    ctx.bump("probe.recv_streak_over_32");
+                }
                 }
             }
             _ => unreachable!("not a channel action"),
